@@ -156,6 +156,10 @@ func c14Find(e *c14env) {
 		g     *flow.Func
 		inner *ast.RangeStmt
 		mid   *c14iter
+		// iterator form: the loop over <n>.nodes lives in a callback iterator (gIn), its body is the
+		// closure lit handed to it from g
+		gIn *flow.Func
+		lit *ast.FuncLit
 	}
 	var edges []edgeLoop
 	for _, g := range rfs {
@@ -175,7 +179,53 @@ func c14Find(e *c14env) {
 					continue
 				}
 				if it := c14iterOf(g, m); it != nil && it.elem == ro {
-					edges = append(edges, edgeLoop{g, rs, it})
+					edges = append(edges, edgeLoop{g: g, inner: rs, mid: it})
+				}
+			}
+		}
+	}
+	if len(edges) == 0 {
+		// iterator form: for _, node := range frontier { node.forEachChild(visit) }
+		for _, g := range rfs {
+			loops := c14loops(g.Body)
+			for _, call := range calls(g.Body, false) {
+				node, lit, ok := e.iterCall(g, call, e.nodesF)
+				if !ok || len(lit.Type.Params.List) == 0 {
+					continue
+				}
+				no := c14obj(g, node)
+				hd := declOf(e.pkg, c14calleeOf(g, call))
+				if no == nil || hd == nil {
+					continue
+				}
+				gIn := funcOf(e.pkg, hd)
+				var rng *ast.RangeStmt
+				for _, rs := range c14ranges(hd.Body) {
+					if _, isNodes := c14fieldOrAlias(gIn, rs.X, e.nodesF); isNodes {
+						rng = rs
+					}
+				}
+				for _, m := range loops {
+					if !contains(c14loopBody(m), call) || rng == nil {
+						continue
+					}
+					if it := c14iterOf(g, m); it != nil && it.elem == no {
+						edges = append(edges, edgeLoop{g: g, inner: rng, mid: it, gIn: gIn, lit: lit})
+					}
+				}
+			}
+		}
+	}
+	if len(edges) == 0 {
+		// the edge loop behind a callback iterator (node.forEachChild(visit)): its body is a closure,
+		// a shape the table extraction does not read
+		for _, g := range rfs {
+			for _, call := range calls(g.Body, true) {
+				if fo := c14calleeOf(g, call); fo != nil {
+					if it, ok := e.iterators[fo]; ok && it.field == e.nodesF {
+						c.Undecide("R-C14-1", cons+"|edge loop", pos(c, call), "the children of a frontier node are visited through the callback iterator "+fo.Name()+": the per-edge decision is a closure handed to it, which the table extraction does not read")
+						return
+					}
 				}
 			}
 		}
@@ -185,18 +235,32 @@ func c14Find(e *c14env) {
 		return
 	}
 	gi, inner, mid := edges[0].g, edges[0].inner, edges[0].mid
+	gInner, innerBody, iterLit := gi, inner.Body, edges[0].lit
 	frontier := plc(gi, mid.slice)
 	edgeID, _ := inner.Key.(*ast.Ident)
 	var edge, child types.Object
 	if edgeID != nil && edgeID.Name != "_" {
 		edge = c14obj(gi, edgeID)
 	}
-	if childID, _ := inner.Value.(*ast.Ident); childID != nil && childID.Name != "_" {
+	if iterLit != nil {
+		// the per-edge body is the closure: its two parameters are the edge label and the child
+		gInner, innerBody = edges[0].gIn, iterLit.Body
+		var ps []types.Object
+		for _, fld := range iterLit.Type.Params.List {
+			for _, nm := range fld.Names {
+				ps = append(ps, gi.Info.Defs[nm])
+			}
+		}
+		edge, child = nil, nil
+		if len(ps) == 2 {
+			edge, child = ps[0], ps[1]
+		}
+	} else if childID, _ := inner.Value.(*ast.Ident); childID != nil && childID.Name != "_" {
 		child = c14obj(gi, childID)
 	} else if edge != nil {
 		// for label := range node.nodes { child := node.nodes[label]; ... }
 		want := gi.Render(inner.X)
-		for _, st := range inner.Body.List {
+		for _, st := range innerBody.List {
 			if as, ok := st.(*ast.AssignStmt); ok && len(as.Lhs) == len(as.Rhs) {
 				for i, r := range as.Rhs {
 					if ix, ok := ast.Unparen(r).(*ast.IndexExpr); ok && gi.Render(ix.X) == want && c14obj(gi, ix.Index) == edge && child == nil {
@@ -332,13 +396,33 @@ func c14Find(e *c14env) {
 			}
 		}
 	}
+	if iterLit != nil {
+		// collect sites inside the per-edge closure
+		for _, cl := range e.collects(gi, iterLit.Body) {
+			if _, seen := colAt[cl.at]; seen {
+				continue
+			}
+			colAt[cl.at] = colSite{cl, gi}
+			nCols++
+			if cl.dst != nil {
+				d := cl.dst
+				if v, ok := d.(*types.Var); ok && !v.IsField() {
+					d = rootOf(d)
+				}
+				if result != nil && result != d {
+					oneResult = false
+				}
+				result = d
+			}
+		}
+	}
 	if !oneResult {
 		c.Violate("R-C14-1", cons+"|success returns the result map", pos(c, f.Body), "the collect sites write into different maps: part of the matching subscribers never reaches the returned result")
 		return
 	}
 	var next types.Object
 	descendAt := map[ast.Node]bool{}
-	ast.Inspect(inner.Body, func(n ast.Node) bool {
+	ast.Inspect(innerBody, func(n ast.Node) bool {
 		as, ok := n.(*ast.AssignStmt)
 		if !ok || len(as.Lhs) != 1 || len(as.Rhs) != 1 {
 			return true
@@ -363,7 +447,7 @@ func c14Find(e *c14env) {
 	if next != nil {
 		nextRoot = rootOf(next)
 	} else {
-		for _, call := range calls(inner.Body, false) {
+		for _, call := range calls(innerBody, false) {
 			fo := c14calleeOf(gi, call)
 			if fo == nil || fo.Pkg() != e.pkg.Types || e.collectors[fo] != nil {
 				continue
@@ -496,6 +580,9 @@ func c14Find(e *c14env) {
 			if fo == nil || e.collectors[fo] != nil || fo.Pkg() == nil || fo.Pkg() != e.pkg.Types {
 				continue
 			}
+			if _, isCollect := colAt[call]; isCollect {
+				continue // an iterator call with a collecting closure: modelled as a collect site
+			}
 			exprs := append([]ast.Expr{}, call.Args...)
 			if x := c14recvOf(g, call); x != nil {
 				exprs = append(exprs, x)
@@ -510,7 +597,7 @@ func c14Find(e *c14env) {
 			}
 		}
 	}
-	scanHandOver(gi, inner.Body, child, result)
+	scanHandOver(gi, innerBody, child, result)
 	if post != nil {
 		scanHandOver(gp, c14loopBody(post), postVal, result)
 	}
@@ -603,6 +690,12 @@ func c14Find(e *c14env) {
 		except = append(except, fo)
 	}
 	except = append(except, e.roles.split.obj)
+	for fo, it := range e.iterators {
+		if it.field == e.nodesF && iterLit != nil {
+			continue // the edge loop lives there: interpreted in place, the closure with it
+		}
+		except = append(except, fo) // modelled (collect sites), not interpreted
+	}
 
 	// a `break` out of the level loop continues with the loop over the final frontier: like the
 	// early return it is right only when the frontier is empty. The state at a break is read at the
@@ -649,8 +742,9 @@ func c14Find(e *c14env) {
 	}
 
 	res := analyze(c, f, flow.Config{
-		NoHavoc: true,
-		Inline:  inlineSamePkg(f, except...),
+		NoHavoc:        true,
+		Inline:         inlineSamePkg(f, except...),
+		InlineClosures: iterLit != nil,
 		AfterAssume: func(st *flow.State, cond ast.Expr, outcome bool) {
 			for _, b := range breaks {
 				if b.cond == cond && b.want == outcome {
@@ -971,7 +1065,7 @@ func c14Find(e *c14env) {
 		}
 	}
 	ex := breaksOut(gi, mid.stmt, labelOf(gi.Body, mid.stmt))
-	ex = append(ex, breaksOut(gi, inner, labelOf(gi.Body, inner))...)
+	ex = append(ex, breaksOut(gInner, inner, labelOf(gInner.Body, inner))...)
 	if len(ex) > 0 {
 		c.Violate("R-C14-1", cons+"|every edge of every frontier node visited", pos(c, ex[0]), "a statement leaves the frontier/edge loops early: the remaining children (map order) are neither collected nor descended into")
 	} else {
